@@ -5,7 +5,7 @@ import os
 import lib
 
 MODEL_DEPS = ['CheckLib', 'Loopback']
-KERNELS = ('Inverse', 'ChainContext')
+KERNELS = ('Inverse', 'ChainContext', 'BagContext', 'ChainContext', 'IdentityContext', 'EdgesBag', 'function_to_bag')
 TRUSTED = ['Coq 8.16.1 kernel; vm_compute in case shards and the Example',
            'hand-written Model/Loopback.v (BagContext / ChainContext / IdentityContext reverse, loopback) for layers with one forward field and any '
            'backward fields, tied by the correspondence; the Inverse wrapper and the factory glue are exercised, not modelled']
